@@ -1,6 +1,5 @@
 From Coq Require Import Extraction ExtrOcamlBasic.
-From LCP Require Import Base.ExtractBase Base.CheckedMem Gen.Repo_crc Alg.GF2Poly Alg.Crc32c Alg.Crc32cRepo
-  Accel.Sse42Crc Accel.Sse42CrcRepo.
+From LCP Require Import Base.ExtractBase Base.CheckedMem Gen.Repo_crc Alg.GF2Poly Alg.Crc32c Alg.Crc32cRepo Accel.Sse42Crc Accel.Sse42CrcRepo.
 Extraction Language OCaml.
 Extraction "crc.ml" force_number_types
   crc_init_tables crc_tables crc_init crc_update_c crc_final crc_stream_c
